@@ -20,6 +20,22 @@ def workload(tier):
     return cases
 
 
+def sequences(tier):
+    """several analyses one after the other in one process: same sub-query text under different aliases, same statement under different
+    dialects, growing scripts"""
+    out = []
+    bodies = ["select a, b from src", "select x.k, x.v from sa.t1 x join sb.t2 y on x.k = y.k", "select max(c1) as m from t3 group by c2"]
+    for i, body in enumerate(bodies):
+        seq = []
+        for al in ("sq", "dt", "zz%d" % i):
+            seq.append({"sql": f"insert into tgt{i} select {al}.* from ({body}) {al}", "dialect": "ansi", "want": ["inv"]})
+            seq.append({"sql": f"with {al} as ({body}) insert into tgt{i} select * from {al}", "dialect": "ansi", "want": ["inv"]})
+        out.append(seq)
+    out.append([{"sql": "insert overwrite table tab1 select col1 from tab2", "dialect": d, "want": ["inv"]} for d in ("sparksql", "hive", "ansi", "postgres", "sparksql")])
+    out.append([{"sql": ";".join(["insert into t%d select c from t%d" % (k + 1, k) for k in range(n)]), "dialect": "ansi", "want": ["inv"]} for n in (1, 2, 3, 2, 1)])
+    return out
+
+
 def judge(run, case, rec, prefix, matcher):
     n = 0
     for f in rec.get("inv", []):
@@ -34,8 +50,15 @@ def run(tier, pid=PID, prefix=PREFIX, matcher=kf.c06, rule=RULE, count_keys=("c0
     run_ = evidence.Run(pid, tier, rule=rule)
     cases = workload(tier)
     run_.need("invariant_evaluations")
+    seqs = sequences(tier)
     with Pool() as pool:
         recs = pool.map("vlib.observe:run_case", cases, timeout=180)
+        sres = pool.map("vlib.observe:run_sequence", seqs, timeout=300)
+    # runs that follow other runs in the same process (module-level caches, leftovers) are judged like any other
+    for seq, (st, rs) in zip(seqs, sres):
+        for k, c in enumerate(seq):
+            cases.append(dict(c, src="sequence"))
+            recs.append((st, rs[k] if st == "ok" else rs))
     common.check_taps(run_, recs)
     outcomes = {}
     for case, (st, rec) in zip(cases, recs):
